@@ -19,9 +19,9 @@
    Field elements: a Goldilocks element is modelled by its u64 REPRESENTATION (the struct field
    `GoldilocksField.0`, any value below 2^64; the element is the residue mod ORDER).
      write_field: `x.to_canonical_u64().to_le_bytes()`        -> le_bytes 8 (x mod ORDER)
-     read_field:  `F::from_canonical_u64(u64::from_le_bytes(buf))`   NO range check: in a release
-       build the non-canonical representation is constructed as is (in a debug build the
-       debug_assert inside from_canonical_u64 panics; not modelled here, reported under C18).
+     read_field:  `F::from_noncanonical_u64(u64::from_le_bytes(buf))`   NO range check: the
+       non-canonical representation is constructed as is (until /repo 5fc4134 the call was
+       from_canonical_u64, whose debug assertion panicked in debug builds: C18, fixed).
    Hence the round trip returns the input for canonical representations and the canonical
    representative otherwise, and two different byte strings can decode to equal field elements
    (Proofs/Codec.v: read_field_noncanonical_accepted).
